@@ -3,7 +3,8 @@
 # Like bin/all_seeded.sh but never touches /repo or /verif/sim/target: every lane has its own
 # git worktree of /repo's HEAD and its own copy of the simulator built against that worktree
 # (under /tmp/seedlane.*; removed at the end). One line per kept seeded change:
-# CAUGHT / MISSED / PATCH-FAILED / BUILD-FAILED.
+# CAUGHT / MISSED / PATCH-FAILED / BUILD-FAILED. With CORPUS=1 the (at most three) minimised
+# failing cases of each change are copied to /verif/corpus/<ID>/.
 SECS="${1:-20}"; LANES="${2:-4}"; ONLY="${3:-.}"
 cd /verif
 BASE=/tmp/seedlane.$$
@@ -24,6 +25,10 @@ lane() {
     if (cd "$L/sim" && cargo build --offline -q 2> "$L/build.log"); then
       R="$L/root"; rm -rf "$R"; mkdir -p "$R"; cp /verif/known_findings.json "$R/"; cp -r /verif/corpus "$R/corpus"
       out=$(cd /verif && VERIF_SECS=$SECS VERIF_ROOT="$R" VERIF_WORKERS=$((16 / LANES)) "$L/sim/target/debug/brushsim" check "$p" quick 2>&1)
+      if [ -n "$CORPUS" ]; then
+        i=0; mkdir -p "/verif/corpus/$p"
+        for f in "$R"/replays/*.json; do [ -f "$f" ] || continue; i=$((i+1)); [ $i -le 3 ] && cp "$f" "/verif/corpus/$p/$n-$i.json"; done
+      fi
       if echo "$out" | grep -q "^VIOLATION"; then echo "$n ($p): CAUGHT $(echo "$out" | grep -c '^VIOLATION') $(echo "$out" | grep '^VIOLATION' | sed 's/.*class=\([^ ]*\).*/\1/' | sort -u | tr '\n' ' ')";
       else echo "$n ($p): MISSED"; fi
     else echo "$n ($p): BUILD-FAILED"; fi
